@@ -47,7 +47,10 @@ def check(ctx, case):
 		return [f'c10.consensus {ftok} {nats(order)} {opt(ti(cons))} {nats(sorted(ti(o) for o in others))}'], []
 	# classify strict
 	gtax = case['gtax']
-	dists = np.array(case['dists'], dtype=np.float32)
+	# distances as the float32 row query() passes, or - legal for the documented Sequence[float] argument - float64 / Python floats
+	# (values exactly on a threshold that float32 cannot represent, and their float64 neighbours, included)
+	dform = case.get('dform', 'f4')
+	dists = np.array(case['dists'], dtype=np.float32) if dform == 'f4' else (np.array(case['dists'], dtype=np.float64) if dform == 'f8' else [float(x) for x in case['dists']])
 	thr_s, ds_s = T.scale_all(thr, [float(x) for x in dists])
 	ftok = T.forest_token(parent, thr_s, report)
 	genomes = T.build_genomes(taxa, gtax)
@@ -58,7 +61,7 @@ def check(ctx, case):
 			inv = case['prev_perm']
 			cur = list(genomes)
 			genomes[:] = [cur[i] for i in inv]
-			classify(genomes, np.array([case['dists'][i] for i in inv], dtype=np.float32), strict=True)
+			classify(genomes, np.array([case['dists'][i] for i in inv], dtype=np.float32 if dform == 'f4' else np.float64), strict=True)
 			genomes[:] = cur
 		res = classify(genomes, dists, strict=True)
 	except Exception as e:
@@ -133,3 +136,12 @@ def run(ctx):
 		if ng >= 2:
 			pp = rng.sample(range(ng), ng)
 			sub({'kind': 'classify', 'parent': parent, 'thr': thr, 'gtax': gtax, 'dists': dists, 'prev_perm': pp}, 'classify-list-reused')
+		if rng.random() < 0.5:
+			# double-precision rows: each distance is a threshold of the forest, its float32 rounding, or a float64 neighbour
+			import math
+			tv = [t for t in thr if t is not None] or [0.2]
+			d64 = []
+			for _ in range(ng):
+				t = rng.choice(tv + [0.2, 0.1, 0.3, 0.7])
+				d64.append(rng.choice([t, t, math.nextafter(t, 2.0), math.nextafter(t, -1.0), float(__import__('numpy').float32(t)), rng.random()]))
+			sub({'kind': 'classify', 'parent': parent, 'thr': thr, 'gtax': gtax, 'dists': [min(1.0, max(0.0, x)) for x in d64], 'dform': rng.choice(['f8', 'list'])}, 'classify-float64-rows')
